@@ -42,6 +42,18 @@ def write_tab(tab, fp=None):
   return fp.getvalue()
 
 
+def file_variant(text):
+  """Line-ending / end-of-file variants of an input FILE that mean nothing (chosen by a checksum of the text, so a
+  replayed case gets the same variant): CRLF line endings, no newline after the last line."""
+  import zlib
+  h = zlib.crc32(text.encode("utf8"))
+  if h % 6 == 0:
+    text = text.replace("\n", "\r\n")
+  if h % 5 == 0:
+    text = text.rstrip("\r\n")
+  return text
+
+
 def run_potable(args, text=None, tmpdir=None, hashseed="0", timeout=120, infile_name="model.aspot", extra_env=None, stdin=None):
   """Run the potable CLI of the tree under test in a subprocess.
   Returns dict(rc, out, err, outfile_bytes or None, outfile_exists)."""
@@ -50,8 +62,8 @@ def run_potable(args, text=None, tmpdir=None, hashseed="0", timeout=120, infile_
   inpath = None
   if text is not None:
     inpath = os.path.join(tmpdir, infile_name)
-    with open(inpath, "w") as f:
-      f.write(text)
+    with open(inpath, "w", newline="") as f:
+      f.write(file_variant(text))
     argv = [inpath if a == "@IN" else a for a in argv]
   outpath = os.path.join(tmpdir, "OUT.table")
   if os.path.exists(outpath):
@@ -213,8 +225,8 @@ def potable_main(args, text=None, tmpdir=None, infile_name="model.aspot"):
   inpath = None
   if text is not None:
     inpath = os.path.join(tmpdir, infile_name)
-    with open(inpath, "w") as f:
-      f.write(text)
+    with open(inpath, "w", newline="") as f:
+      f.write(file_variant(text))
     argv = [inpath if a == "@IN" else a for a in argv]
   outpath = os.path.join(tmpdir, "OUT.table")
   if os.path.exists(outpath):
